@@ -17,6 +17,25 @@ Proof.
 Qed.
 Print Assumptions C19_manhattan_is_metric.
 
+(* ... also for UNSIGNED arguments: with a subtraction that cannot go below zero (natural numbers) and with
+   arithmetic modulo 2^64 (operands below 2^32) the formula is |x1 - x2| + |y1 - y2|, because it only ever
+   subtracts the smaller from the larger *)
+Theorem C19_manhattan_unsigned_exact :
+  (forall x1 x2 y1 y2 : N,
+     Z.of_N (n_manhattan x1 x2 y1 y2) = Z.abs (Z.of_N x1 - Z.of_N x2) + Z.abs (Z.of_N y1 - Z.of_N y2)) /\
+  (forall x1 x2 y1 y2, 0 <= x1 < 2 ^ 32 -> 0 <= x2 < 2 ^ 32 -> 0 <= y1 < 2 ^ 32 -> 0 <= y2 < 2 ^ 32 ->
+     w_manhattan x1 x2 y1 y2 = Z.abs (x1 - x2) + Z.abs (y1 - y2)) /\
+  (forall x1 x2 y1 y2, z_manhattan x1 x2 y1 y2 = Z.abs (x1 - x2) + Z.abs (y1 - y2)).
+Proof. split; [exact n_manhattan_exact|]. split; [exact w_manhattan_exact|exact z_manhattan_abs]. Qed.
+Print Assumptions C19_manhattan_unsigned_exact.
+
+(* the defect fixed by fixes/C19-manhattan-unsigned-wrap.diff: abs(x1 - x2) + abs(y1 - y2) on unsigned 64-bit
+   operands wraps around — d((165,177),(194,70)) = 136 but the old formula gave 2^64 - 29 + 107 *)
+Example C19_manhattan_abs_unsigned_refuted :
+  w_manhattan 165 194 177 70 = 136 /\ w_manhattan 194 165 70 177 = 136 /\
+  w_manhattan_abs 165 194 177 70 = 2 ^ 64 - 29 + 107 /\ w_manhattan_abs 165 194 177 70 <> w_manhattan_abs 194 165 70 177.
+Proof. vm_compute. repeat split; try reflexivity; discriminate. Qed.
+
 (* Euclidean distance: the radicand x*x + y*y of euclidean_distance over exact integers is symmetric,
    zero exactly for coincident points, and satisfies the triangle inequality in its square-root-free
    form: whenever p, q >= 0 bound the two legs (p^2 >= d2(A,B), q^2 >= d2(B,C)), p + q bounds the
